@@ -16,19 +16,26 @@ using namespace coloquinte;
 #ifndef QMAX
 #define QMAX 2
 #endif
+#ifndef SMAX
+#define SMAX QMAX
+#endif
 #ifndef PLIM
 #define PLIM 100000000
 #endif
 // FAMILY_A: positions symbolic, quantities enumerated 0..QMAX.  FAMILY_B: quantities symbolic, positions enumerated small.
 extern "C" void harness() {
+#ifdef ONLYFULL
+  int ns = NS, nk = NK;      // only the largest shape (the smaller ones are covered by another harness)
+#else
   int ns = 1 + __verif_choice(NS), nk = 1 + __verif_choice(NK);
+#endif
   std::vector<long long> u, v, s, d;
   long long ts = 0, td = 0;
   for (int i = 0; i < ns; ++i) {
 #ifdef FAMILY_B
     u.push_back(__verif_choice(PRANGE)); s.push_back(__verif_nondet_i64(0, QLIM));
 #else
-    u.push_back(__verif_nondet_i64(-PLIM, PLIM)); s.push_back(__verif_choice(QMAX + 1));
+    u.push_back(__verif_nondet_i64(-PLIM, PLIM)); s.push_back(SMAX == 0 ? 1 : __verif_choice(SMAX + 1));   // SMAX 0: unit supplies
 #endif
     ts += s[i];
   }
@@ -40,6 +47,9 @@ extern "C" void harness() {
 #endif
     td += d[j];
   }
+#ifdef SORTEDSINKS
+  for (int j = 1; j < nk; ++j) __verif_assume(v[j - 1] <= v[j]);   // stated bound of this harness: sinks given in non-decreasing order
+#endif
   int balance = __verif_choice(2);
   Transportation1d pb(u, v, s, d);
   if (balance) {
